@@ -226,7 +226,7 @@ def run(run, tier, seed, replay_case=None):
     rng = random.Random(seed * 7919 + 26)
     g = Gen(rng)
     corpus = C.load_corpus(PROP)
-    n = 4000 if tier == "quick" else 120000
+    n = 4000 if tier == "quick" else 60000
     cases = list(corpus) + fixed_cases() + [g.case(tier) for _ in range(n)]
     if replay_case is not None:
         cases = [replay_case]
